@@ -205,6 +205,10 @@ func (g *gen) randomGsort() *gsortCase {
 	rng := g.rng()
 	c := &gsortCase{two: rng.Intn(4) == 0}
 	types := []string{"int", "string", "bool", "f64", "u8", "dur", "rank"}
+	for _, k := range orderedBasics {
+		types = append(types, "n"+k)
+	}
+	types = append(types, "nbool")
 	sorters := []string{"ByX", "*ByXP", "ByY", "*ByYP"}
 	prio := map[string]int{}
 	for i, n := 0, 1+rng.Intn(5); i < n; i++ {
@@ -213,8 +217,13 @@ func (g *gen) randomGsort() *gsortCase {
 			if rng.Intn(3) == 0 {
 				prio[s]++
 				t := fmt.Sprintf("%s,%d", s, prio[s])
-				if f.typ == "rank" && rng.Intn(2) == 0 {
+				switch {
+				case f.typ == "rank" && rng.Intn(2) == 0:
 					t += ",String()"
+				case f.typ == "nbool": // a named bool key is compared through a non-bool accessor
+					t += []string{",String()", ",Rank()"}[rng.Intn(2)]
+				case strings.HasPrefix(f.typ, "n") && rng.Intn(2) == 0:
+					t += []string{",String()", ",Rank()"}[rng.Intn(2)]
 				}
 				f.tags = append(f.tags, t)
 			}
@@ -281,7 +290,7 @@ func (g *gen) run() {
 		}
 	}
 	// (4) random definitions x random settings
-	n := 6
+	n := 4
 	if g.thorough {
 		n = 400
 	}
@@ -290,6 +299,7 @@ func (g *gen) run() {
 	}
 	// (5) definition shapes whose failures are other properties' subjects (C12), under their own keys
 	g.addGenum(&genumCase{n: 2, under: "int", shape: "duptraits", traits: cols("ustr,uint"), opts: [5]bool{true, true, true, false, false}}, "genum:duplicate-with-traits")
+	g.addGenum(&genumCase{n: 3, under: "int", shape: "collide", traits: cols("ustr"), opts: [5]bool{true, true, true, false, false}}, "genum:case-collision-sensitive")
 	g.addGenum(&genumCase{n: 2, under: "int", shape: "plain", traits: cols("code+p,mark+p"), opts: [5]bool{true, true, true, false, false}}, "genum:two-self-unmarshalling")
 
 	// (6) regeneration over a DIFFERENT previous output that is longer (all marshalers on before they
@@ -330,7 +340,7 @@ func (g *gen) run() {
 			g.addGerror(&c, "gerror:sweep")
 		}
 	}
-	n = 3
+	n = 2
 	if g.thorough {
 		n = 100
 	}
@@ -348,12 +358,46 @@ func (g *gen) run() {
 	for i := range gsortBase {
 		g.addGsort(&gsortBase[i], "gsort:sweep")
 	}
+	// named key types over EVERY ordered basic kind: plain, and through accessors of different
+	// result types; value and pointer sorters.  Named bool keys go through a non-bool accessor.
+	named := func(accV, accP string, kinds []string) *gsortCase {
+		c := &gsortCase{}
+		for i, k := range kinds {
+			f := gsortField{name: fmt.Sprintf("F%d", i), typ: "n" + k}
+			tv, tp := fmt.Sprintf("ByV,%d", i+1), fmt.Sprintf("*ByP,%d", i+1)
+			if accV != "" {
+				tv += "," + accV
+			}
+			if accP != "" {
+				tp += "," + accP
+			}
+			f.tags = []string{tv, tp}
+			c.fields = append(c.fields, f)
+		}
+		return c
+	}
+	g.addGsort(named("", "", orderedBasics), "gsort:named-kinds")
+	g.addGsort(named("String()", "Rank()", orderedBasics), "gsort:named-kinds")
+	g.addGsort(named("String()", "Rank()", []string{"bool"}), "gsort:named-kinds")
+	// out of domain here (C08 lists named types with a String() accessor): a named bool key
+	// without accessor and an accessor with a bool result; both render `<` on bools
+	{
+		c := named("", "", []string{"bool"})
+		c.bad = "named-bool-plain"
+		g.addGsort(c, "ood")
+		c = named("IsSet()", "IsSet()", []string{"int", "bool"})
+		c.bad = "bool-accessor"
+		g.addGsort(c, "ood")
+	}
 	for i := 0; i < g.r.N(n); i++ {
 		g.addGsort(g.randomGsort(), "gsort:random")
 	}
 	// out-of-domain definitions (drift only): the generator is expected to refuse them
 	g.addGenum(&genumCase{n: 3, under: "int", shape: "plain", traits: cols("ustr+p"), opts: [5]bool{true, true, true, false, false}, bad: "nonunique"}, "ood")
 	g.addGenum(&genumCase{n: 2, under: "int", shape: "plain", traits: cols("ustr"), opts: [5]bool{true, true, true, false, false}, bad: "noname"}, "ood")
+	// names that differ only by case are legal Go and fine without -caseInsensitive; with it the
+	// pinned generator writes two equal cases into the lower-case switch (does not compile)
+	g.addGenum(&genumCase{n: 3, under: "int", shape: "collide", traits: cols("ustr"), opts: [5]bool{true, true, true, true, false}, bad: "case-collision"}, "ood")
 	g.addGerror(&gerrorCase{bad: "noembed", fields: []gerrField{{"Code", "int", "pc"}}}, "ood")
 	g.addGerror(&gerrorCase{bad: "badopt", fields: []gerrField{{"Code", "int", "pc"}}}, "ood")
 	g.addGsort(&gsortCase{bad: "dupprio", fields: []gsortField{{"A", "int", []string{"ByA,1"}}, {"B", "int", []string{"ByA,1"}}}}, "ood")
